@@ -13,7 +13,7 @@ Line protocol for C03 (heap model).  All payloads are blank-separated `key=value
 * `c03.call ip=<0|1> stale=<0|1> init=… body=…` →
   `same=<0|1> ext=<0|1> frame=<0|1> wo=<0|1> in=<abs of the input afterwards> out=<abs of the result>`
 * `c03.bad ip=<0|1> stale=<0|1> init=… pre=… body=…`  (statements `pre` run before the copy) → same fields
-* `c03.maplist ip=<0|1> swap=<0|1> k=<members> init=… body=…` →
+* `c03.maplist ip=<0|1> swap=<0|1> k=<members> [dup=<0|1>] init=… body=…` →
   `samelist=<0|1> ext=<0|1> recv=<m0.m1…> res=<…> in=<abs|abs…> out=<abs|…>`  (members as `s<i>` = the i-th input
   object, `f` = a fresh object)
 * `c03.listop op=<add|sub|and|or|orl|orfix> k=<members> present=<0|1> extra=<m>` →
@@ -135,7 +135,10 @@ def run (cmd rest : String) : Option String :=
     let build (p : Store × List Ref) (i : Nat) : Store × List Ref :=
       let q := addObj p.1 (vals.map fun v => v.map (· + 100 * (i : Int))) (info + i)
       (q.1, p.2 ++ [q.2])
-    let p := (List.range k).foldl build (({} : Store), [])
+    let p0 := (List.range k).foldl build (({} : Store), [])
+    -- `dup=1`: the list holds the FIRST neuron k times (a degenerate NeuronList)
+    let dup := ((look m "dup") >>= pBool).getD false
+    let p : Store × List Ref := if dup then (p0.1, p0.2.map fun _ => p0.2.headD 0) else p0
     let q := p.1.allocLst p.2
     let s := q.1
     let l := q.2
